@@ -28,6 +28,7 @@ META = {
 }
 META["technique"] += '; dominance of the `block_scope` test over every hand-over of the block stacks to a copied context'
 META["technique"] += '; include_partials may gate loaded templates only (children() of every Node); presence-by-key in the loaders'
+META["technique"] += '; loaded templates rendered through render_with_context only; blank-flag soundness over every Node'
 META["level_text"] += " Also decided: the parent's block stacks are handed to a copied context only on the block_scope branch."
 
 EXT = "liquid2/builtin/tags/extends_tag.py"
@@ -425,6 +426,28 @@ def run(prog: Program, res: Result) -> None:  # noqa: PLR0912, PLR0915
     from checks.shared import check_source_presence_by_key
 
     check_source_presence_by_key(prog, res, "C08.R13")
+    res.rule("C08.R14", "a block is found and rendered wherever it is nested: the `blank` flag of every Node consults every child it renders - an `if` whose flag forgets its `else` (or `elsif`) branch is rendered into a null buffer when its other branches are whitespace, and the `{% block %}` written in that branch, with every override and block.super chain of it, disappears (= C18.R2 = C01.R2)")
+    from checks.blank import check_blank_flags as _cbf
+
+    _cbf(prog, res, "C08.R14")
+    res.rule("C08.R15", "`extends` ends the render of the template it is written in, and of no other: a template loaded by a tag is rendered through render_with_context[_async] - the frame that catches the StopRender an `extends` inside it raises - never by walking its `.nodes` from the tag's own render method (the StopRender would then end the including template, silently dropping everything after the tag)")
+    n15 = 0
+    nb15 = prog.cls("liquid2.ast.Node")
+    for fi15 in sorted(prog.all_functions(), key=lambda f: (f.file, f.node.lineno)):
+        if fi15.cls is None or not prog.is_subclass(fi15.cls, nb15) or fi15.name not in ("render_to_output", "render_to_output_async"):
+            continue
+        loaded = {t.id for a in ast.walk(fi15.node) if isinstance(a, ast.Assign) and "get_template" in norm(a.value, 300) for t in a.targets if isinstance(t, ast.Name)}
+        if not loaded:
+            continue
+        n15 += 1
+        walks = [x for x in ast.walk(fi15.node) if isinstance(x, ast.Attribute) and x.attr == "nodes" and isinstance(x.value, ast.Name) and x.value.id in loaded]
+        site = f"{fi15.file}:{fi15.node.lineno} {fi15.qualname}"
+        what = f"{fi15.qualname}: the loaded template is rendered through render_with_context"
+        if walks:
+            res.fail("C08.R15", file=fi15.file, line=walks[0].lineno, qualname=fi15.qualname, construct=f"{fi15.qualname}: renders `{norm(walks[0])}` itself", message=f"{fi15.qualname} reads `{norm(walks[0])}` of the template it loaded and renders the nodes itself: an `extends` in that template raises StopRender, which only render_with_context catches - it ends the including template's render loop instead, so everything after the tag is dropped without an error", what=what)
+        else:
+            res.ok("C08.R15", site, what, f"{sorted(loaded)} rendered by call only")
+    res.floor("C08.R15", "render methods that load a template", n15, 4)
     res.rule("C08.R8", "the inheritance tags are never taken for whitespace: ExtendsNode and the inheritance BlockNode write the parent chain's / the override's text, so their `blank` flag is False however they are nested - a blank `extends` inside a `{% liquid %}` or `{% if %}` whose other children are blank is rendered into the null buffer and the page comes out empty, without an error (shared with C01.R2 / C18.R2, restricted to liquid2/builtin/tags/extends_tag.py)")
     from checks.blank import check_blank_flags
 
